@@ -31,7 +31,10 @@ CHECKS = {
              "it on), complete Edge truth table for all flags and values, not_from_undef, Delta "
              "(pass list satisfies and is uniquely determined by the 'differs from the last PASSED "
              "value by >= delta' spec, for all sequences), IfOutput/NotIfInitialized, extensional "
-             "dictionary specs of all 8 DataEdit operations and the chain law. Tie: every case goes "
+             "dictionary specs of all 8 DataEdit operations and the chain law. Tie (both kinds): (1) "
+             "tools/gen_filters.py regenerates not_from_undef/Edge/Delta/IfOutput/NotIfInitialized from "
+             "edzed/blocklib/filters.py on every run and Gen/GenFiltersProofs.v re-proves that they are the "
+             "model's definitions; (2) every case goes "
              "through the real Event.send into a probe block; coqc evaluates the model on the same "
              "filters/data and compares delivered data / rejection / exception class.",
         technique="Coq proof (list induction, association-list lemmas) + differential "
